@@ -26,6 +26,34 @@ abbrev E := Ext Rat
 
 def floatSlack : Rat := 1 / 1000000000000   -- 1e-12, relative
 
+section enc
+variable {α : Type} [Arith α] [Wire α]
+/-- NaN payloads are not part of the protocol: every NaN crosses as `#x7ff8000000000000`. -/
+def canon (v : α) : α := if Arith.isNaN v then Wire.ofBits 0x7ff8000000000000 else v
+def canonTy : VarType α → VarType α
+  | .nnreal a b => .nnreal (canon a) (canon b)
+  | .real a b => .real (canon a) (canon b)
+  | t => t
+def encBounds (b : Bounds α) : Sexp := app "b" [encNum (canon b.lower), encNum (canon b.upper)]
+def encReport (r : BoundsReport α) : Sexp :=
+  app "ok" [app "vars" (r.variables.map fun p => encBounds p.2),
+            app "exprs" (r.expressions.map encBounds),
+            app "domain" (r.domain.map fun d => DomVar.enc { d with ty := canonTy d.ty })]
+def decInstance (d cs es : List Sexp) : Option (List (DomVar α) × List (Constraint α) × List (Exp α)) := do
+  let d ← optAll (d.map DomVar.dec)
+  let cs ← optAll (cs.map Constraint.dec)
+  let es ← optAll (es.map Exp.dec)
+  pure (d, cs, es)
+end enc
+
+/-- does the model, run at `Float` on the same request, reproduce the implementation's answer bit for bit? -/
+def floatModelAgrees (lin : Bool) (maxSteps : Nat) (tol : Sexp) (d cs es : List Sexp) (impl : Sexp) : Bool :=
+  match (decNumS tol : Option Float), decInstance (α := Float) d cs es with
+  | some tol, some (d, cs, es) =>
+    let r := if lin then linearizerBounds d cs tol maxSteps else analyzeBounds d cs es tol maxSteps
+    encReport r == impl
+  | _, _ => false
+
 def rabs (q : Rat) : Rat := if q < 0 then -q else q
 def rmax (a b : Rat) : Rat := if a < b then b else a
 
@@ -91,6 +119,33 @@ partial def literals : Exp E → List Rat
   | .abs e | .not e | .un _ e => literals e
   | .min es | .max es | .and es | .or es => es.flatMap literals
   | .xor a b | .implies a b | .iff a b | .bin _ a b => literals a ++ literals b
+
+/-- `1.0 / d` overflows to ±inf in IEEE double (round to nearest): `1/|d| ≥ 2^1024 − 2^970`. -/
+def reciprocalOverflows (d : Rat) : Bool :=
+  d != 0 && 1 / rabs d ≥ (2 : Rat) ^ (1024 : Nat) - (2 : Rat) ^ (970 : Nat)
+
+partial def hasReciprocalOverflow : Exp E → Bool
+  | .num _ | .var _ => false
+  | .abs e | .not e | .un _ e => hasReciprocalOverflow e
+  | .min es | .max es | .and es | .or es => es.any hasReciprocalOverflow
+  | .bin .div a (.num (.fin d)) => reciprocalOverflows d || hasReciprocalOverflow a
+  | .xor a b | .implies a b | .iff a b | .bin _ a b => hasReciprocalOverflow a || hasReciprocalOverflow b
+
+def f64Overflows (q : Rat) : Bool := rabs q ≥ (2 : Rat) ^ (1024 : Nat) - (2 : Rat) ^ (970 : Nat)
+
+/-- some affine sub-expression has (exactly) a coefficient, a constant or a reciprocal of a divisor that
+overflows IEEE double: `AffineForm::from_exp` then carries an infinite coefficient. -/
+partial def formOverflows (e : Exp E) : Bool :=
+  let here : Bool := match AffineForm.fromExp e with
+    | some f => f.coefficients.any (fun p => match p.2 with | .fin q => f64Overflows q | _ => false)
+                || (match f.constant with | .fin q => f64Overflows q | _ => false)
+    | none => false
+  here || match e with
+    | .num _ | .var _ => false
+    | .abs a | .not a | .un _ a => formOverflows a
+    | .min es | .max es | .and es | .or es => es.any formOverflows
+    | .bin .div a (.num (.fin d)) => reciprocalOverflows d || formOverflows a
+    | .xor a b | .implies a b | .iff a b | .bin _ a b => formOverflows a || formOverflows b
 
 def dedupQ (xs : List Rat) : List Rat :=
   xs.foldl (fun acc x => if acc.contains x then acc else acc ++ [x]) []
@@ -159,9 +214,9 @@ structure Acc where
 
 def ratAtom (q : Rat) : Sexp := .atom (Wire.enc (Ext.fin q : E))
 
-def check (tol : Sexp) (d cs es vs bs d' : List Sexp) : Sexp :=
-  match (decNumS tol : Option E), optAll (d.map (DomVar.dec (α := E))), optAll (cs.map (Constraint.dec (α := E))),
-        optAll (es.map (Exp.dec (α := E))), optAll (vs.map decB), optAll (bs.map decB), optAll (d'.map (DomVar.dec (α := E))) with
+def check (lin : Bool) (maxSteps : Nat) (tolS : Sexp) (d csS esS : List Sexp) (impl : Sexp) (vs bs d' : List Sexp) : Sexp :=
+  match (decNumS tolS : Option E), optAll (d.map (DomVar.dec (α := E))), optAll (csS.map (Constraint.dec (α := E))),
+        optAll (esS.map (Exp.dec (α := E))), optAll (vs.map decB), optAll (bs.map decB), optAll (d'.map (DomVar.dec (α := E))) with
   | some tol, some dom, some cs, some es, some vs, some bs, some dom' =>
     if vs.length != dom.length || bs.length != es.length || dom'.length != dom.length then app "err" [.atom "shape"] else
     let declared := dom.map (·.name)
@@ -177,7 +232,12 @@ def check (tol : Sexp) (d cs es vs bs d' : List Sexp) : Sexp :=
         | some p => p.2
         | none => Bounds.unbounded
     let lits := dedupQ ((cs.flatMap fun c => literals c.lhs ++ literals c.rhs) ++ es.flatMap literals)
-    let mag0 := magnitude (lits ++ (dom.flatMap fun dv => endpoints (Bounds.ofVarType dv.ty)))
+    let coefOverflow := cs.any fun c => formOverflows c.lhs || formOverflows c.rhs
+    -- evaluated only when an escape was found
+    let cause (_ : Unit) : String :=
+      if floatModelAgrees lin maxSteps tolS d csS esS impl then
+        (if coefOverflow then "-coefficient-overflow" else "-float-rounding")
+      else ""
     -- exact run of the model with a small step cap: candidate coordinates only
     let exact := Analyzer.analyze dom cs tol 40
     -- A. feasible points
@@ -194,20 +254,17 @@ def check (tol : Sexp) (d cs es vs bs d' : List Sexp) : Sexp :=
       let acc := { acc with points := acc.points + 1 }
       if !(cs.all (holds ρ)) then acc else
       let acc := { acc with feasible := acc.feasible + 1 }
-      let mag := rmax mag0 (magnitude (a.map (·.2)))
       -- every published range (declared and undeclared) and every tightened domain
       a.foldl (fun (acc : Acc) (p : String × Rat) =>
         if acc.violation.isSome then acc else
         let pb := pubOf p.1
         match escape p.2 pb with
         | none =>
-          let ex := Analyzer.varBounds exact.variableBounds p.1
-          let kind := if ex.lower.isNaN || ex.upper.isNaN then "nan-range" else "nan-range-float-overflow"
-          { acc with violation := some (app "violation" [.atom kind, .str p.1, Oracle.encAssign a]) }
+          { acc with violation := some (app "violation" [.atom "nan-range", .str p.1, Oracle.encAssign a]) }
         | some esc =>
-          let rel := esc / mag
+          let rel := esc / rmax 1 (rabs p.2)
           if rel > floatSlack then
-            { acc with violation := some (app "violation" [.atom "var-escape", .str p.1, ratAtom p.2, encNum pb.lower, encNum pb.upper,
+            { acc with violation := some (app "violation" [.atom ("var-escape" ++ cause ()), .str p.1, ratAtom p.2, encNum pb.lower, encNum pb.upper,
                 .atom (sci rel), Oracle.encAssign a]) }
           else
             let acc := { acc with worstVar := rmax acc.worstVar rel }
@@ -219,10 +276,10 @@ def check (tol : Sexp) (d cs es vs bs d' : List Sexp) : Sexp :=
               match escape p.2 tb with
               | none => { acc with violation := some (app "violation" [.atom "nan-domain", .str p.1, Oracle.encAssign a]) }
               | some esc2 =>
-                let rel2 := esc2 / mag
+                let rel2 := esc2 / rmax 1 (rabs p.2)
                 -- a NonNegativeReal lower bound of the tightened domain is max(lower, 0): x ≥ 0 is part of the type
                 if rel2 > floatSlack then
-                  { acc with violation := some (app "violation" [.atom "domain-escape", .str p.1, ratAtom p.2, dv.ty.enc,
+                  { acc with violation := some (app "violation" [.atom ("domain-escape" ++ cause ()), .str p.1, ratAtom p.2, dv.ty.enc,
                       .atom (sci rel2), Oracle.encAssign a]) }
                 else { acc with worstVar := rmax acc.worstVar rel2 }) acc) {}
     match accA.violation with
@@ -232,12 +289,10 @@ def check (tol : Sexp) (d cs es vs bs d' : List Sexp) : Sexp :=
     let allVars := Oracle.dedup (declared.filter (inEs.contains ·) ++ undeclared.filter (inEs.contains ·))
     let capB := perVar 1500 allVars.length
     let axesB := allVars.map fun v => (v, boxCandidates (pubOf v) lits capB)
-    let pubBox : List (String × Bounds E) := (Oracle.dedup (declared ++ undeclared)).map fun v => (v, pubOf v)
     let accB : Acc := (grid axesB).foldl (fun (acc : Acc) a =>
       if acc.violation.isSome then acc else
       let ρ := Oracle.lookup a
       let acc := { acc with boxPoints := acc.boxPoints + 1 }
-      let mag := rmax mag0 (magnitude (a.map (·.2)))
       (es.zip bs).foldl (fun (acc : Acc) (p : Exp E × Bounds E) =>
         if acc.violation.isSome then acc else
         match eval ρ p.1 with
@@ -245,14 +300,13 @@ def check (tol : Sexp) (d cs es vs bs d' : List Sexp) : Sexp :=
         | some val =>
           match escape val p.2 with
           | none =>
-            -- the same expression over the same (published) box in exact arithmetic
-            let ex := Analyzer.boundsOf pubBox p.1
-            let kind := if ex.lower.isNaN || ex.upper.isNaN then "nan-expr-range" else "nan-expr-range-float-overflow"
+            -- root cause: a division by a literal whose reciprocal overflows in f64 (`div_by` scales by `1.0 / d`)
+            let kind := if hasReciprocalOverflow p.1 then "nan-expr-range-divby-subnormal" else "nan-expr-range"
             { acc with violation := some (app "violation" [.atom kind, p.1.enc, Oracle.encAssign a]) }
           | some esc =>
-            let rel := esc / rmax mag (rabs val)
+            let rel := esc / rmax 1 (rabs val)
             if rel > floatSlack then
-              { acc with violation := some (app "violation" [.atom "expr-escape", p.1.enc, ratAtom val, encNum p.2.lower, encNum p.2.upper,
+              { acc with violation := some (app "violation" [.atom ("expr-escape" ++ cause ()), p.1.enc, ratAtom val, encNum p.2.lower, encNum p.2.upper,
                   .atom (sci rel), Oracle.encAssign a]) }
             else { acc with worstExpr := rmax acc.worstExpr rel }) acc) accA
     match accB.violation with
